@@ -4,7 +4,8 @@ Only the property text and a scratch worktree path are handed over (nothing from
 import json, sys
 pid = sys.argv[1]
 wt = sys.argv[2]
-round2 = len(sys.argv) > 3 and sys.argv[3] == '2'
+round2 = len(sys.argv) > 3 and sys.argv[3] in ('2', '3')
+round3 = len(sys.argv) > 3 and sys.argv[3] == '3'
 for l in open('/verif/properties.jsonl'):
     p = json.loads(l)
     if p['id'] == pid:
@@ -39,4 +40,6 @@ When you are done, leave the worktree itself clean of your library change (git c
 if round2:
     text = text.replace("4. needs something SPECIFIC to manifest:", "4. is HARD to hit: it must not show on typical or uniformly random inputs (aim for fewer than 1 in 10,000 random inputs / histories, or a sequence of at least three dependent operations, or a precise size / alignment / parity threshold combined with a particular bit pattern, or a rarely taken error path, or two cooperating sites in different files that each look fine alone, or a helper / table / shared utility in a DIFFERENT file than the obvious one). It needs something SPECIFIC to manifest:")
     text = text.replace("_out/", "_out2/").replace("m1", "m3").replace("m2", "m4")
+if round3:
+    text = text.replace('_out2/', '_out3/').replace('m3', 'm5').replace('m4', 'm6')
 print(text)
